@@ -194,6 +194,36 @@ func runC09(r *R) {
 					ok = g
 				}
 			}
+			// the bookkeeping may live in a method the goroutine calls with f()'s result (`cg.finish(f())`):
+			// there the value stored is that method's error parameter
+			allInstrs(cl, func(in ssa.Instruction) {
+				ci, isCall := in.(ssa.CallInstruction)
+				if !isCall || ci.Common().IsInvoke() {
+					return
+				}
+				callee := StaticCallee(ci.Common())
+				if callee == nil || callee.Pkg == nil || !strings.HasPrefix(callee.Pkg.Pkg.Path(), modPrefix) || len(callee.Blocks) == 0 {
+					return
+				}
+				// one argument is the result of the dynamic call f()
+				argIdx := -1
+				for i, a := range ci.Common().Args {
+					if c, isC := Resolve1(a).(*ssa.Call); isC && CalleeName(c.Common()) == "dynamic" {
+						argIdx = i
+					}
+				}
+				if argIdx < 0 || argIdx >= len(callee.Params) {
+					return
+				}
+				for _, st := range StoresToField(callee, arv+".contextGroup", "err") {
+					if Resolve1(st.Val) == ssa.Value(callee.Params[argIdx]) {
+						g, _ := Guard(callee, nil, st, EqC("cg.err == nil", FieldVP(arv+".contextGroup", "err", nil), NilV))
+						if g {
+							ok = true
+						}
+					}
+				}
+			})
 		}
 		r.Check(ok, "C09-R3", fn, "cg.err = err (first error kept)", fn.Pos(), "first non-nil error is stored", "contextGroup.Go no longer records the first error")
 	}
